@@ -5,6 +5,7 @@ package main
 
 import (
 	"fmt"
+	"os"
 	"go/ast"
 	"go/token"
 	"go/types"
@@ -139,10 +140,39 @@ func (c *FnCtx) loopNames(l *Loop, phiVal func(*ssa.Phi) Val) map[string]Val {
 						}
 						names[id.Name] = v
 					} else if k, ok := d.X.(*ssa.Const); ok {
+						if _, have := names[id.Name]; have {
+							continue
+						}
 						names[id.Name] = c.constVal(k)
+						if os.Getenv("GOVC_DEBUG") != "" {
+							fmt.Fprintf(os.Stderr, "DEBUGREF const %s = %s at %v in b%d of %s hdr b%d\n", id.Name, k.String(), c.E.Fset.Position(d.Pos()), b.Index, c.Name, l.Header.Index)
+						}
+					} else if os.Getenv("GOVC_DEBUG") != "" {
+						fmt.Fprintf(os.Stderr, "DEBUGREF unbound %s = %s in b%d of %s hdr b%d\n", id.Name, d.X.Name(), b.Index, c.Name, l.Header.Index)
 					}
 				}
 			}
+		}
+	}
+	// x/tools emits only a zero-constant DebugRef at some `x := T{}` definitions; recover the value
+	// from the later uses of the same name when it is unique in the function and defined before the loop
+	for name, vals := range c.debugUses() {
+		if cur, have := names[name]; have && cur.T != "" && !isZeroConstTerm(cur.T) {
+			continue
+		}
+		if len(vals) != 1 {
+			continue
+		}
+		x := vals[0]
+		ins, ok := x.(ssa.Instruction)
+		if !ok || ins.Block() == nil || ins.Block() == l.Header || !ins.Block().Dominates(l.Header) {
+			continue
+		}
+		if v, ok := c.vals[x]; ok {
+			if v.GT == nil {
+				v.GT = x.Type()
+			}
+			names[name] = v
 		}
 	}
 	for _, ins := range l.Header.Instrs {
@@ -528,4 +558,42 @@ func (c *FnCtx) havocLoop(l *Loop) {
 		c.setH(h, cur)
 	}
 	c.havocMod(exist, l.ModFresh, fmt.Sprintf("loop %d", l.Ordinal))
+}
+
+func isZeroConstTerm(t string) bool {
+	return t == "0" || t == "a_nil" || t == "(mk_slice 0 0 0 0)" || t == "str_empty" || t == "false"
+}
+
+// debugUses: identifier name -> distinct non-constant SSA values bound to it by DebugRefs
+func (c *FnCtx) debugUses() map[string][]ssa.Value {
+	if c.dbgUses != nil {
+		return c.dbgUses
+	}
+	m := map[string][]ssa.Value{}
+	for _, b := range c.F.Blocks {
+		for _, ins := range b.Instrs {
+			d, ok := ins.(*ssa.DebugRef)
+			if !ok || d.IsAddr {
+				continue
+			}
+			id, ok := d.Expr.(*ast.Ident)
+			if !ok {
+				continue
+			}
+			if _, isConst := d.X.(*ssa.Const); isConst {
+				continue
+			}
+			dup := false
+			for _, v := range m[id.Name] {
+				if v == d.X {
+					dup = true
+				}
+			}
+			if !dup {
+				m[id.Name] = append(m[id.Name], d.X)
+			}
+		}
+	}
+	c.dbgUses = m
+	return m
 }
